@@ -62,10 +62,18 @@ impl FileSystem {
     }
 
     /// resolve object path under the virtual root
-    pub(crate) fn get_object_path(&self, bucket: &str, key: &str) -> Result<PathBuf> {
+    pub(crate) fn get_object_path(&self, bucket: &str, key: &str) -> s3s::S3Result<PathBuf> {
         let dir = Path::new(&bucket);
         let file_path = Path::new(&key);
-        self.resolve_abs_path(dir.join(file_path))
+
+        // A key is a path relative to its bucket. It must not climb out of the bucket
+        // (`..`), restart from the file system root (`/...`) or name the bucket directory itself (`.`).
+        let is_inside_bucket = file_path.components().all(|c| matches!(c, std::path::Component::Normal(_)));
+        if is_inside_bucket.not() {
+            return Err(s3s::s3_error!(InvalidArgument, "the key is not a relative path inside the bucket"));
+        }
+
+        Ok(self.resolve_abs_path(dir.join(file_path))?)
     }
 
     /// resolve bucket path under the virtual root
